@@ -1,6 +1,6 @@
 (* C08 -- any sequence of updates keeps files, config and tags in agreement. *)
 From Coq Require Import List Bool NArith Arith Sorted.
-From BV Require Import Model.Project Proofs.ConfigFacts.
+From BV Require Import Model.Project Proofs.ProjectFacts.
 Import ListNotations.
 
 Theorem C08_step_preserves_consistent : forall s o, consistent s = true -> consistent (step s o) = true.
